@@ -26,7 +26,8 @@ run_demo() { # dir
   if [ -f "$SRC/demo_test.go" ]; then
     pkg=$(grep -m1 '^package ' "$SRC/demo_test.go" | awk '{print $2}'); sub=client; case "$pkg" in state*) sub=state;; esac
     cp "$SRC/demo_test.go" "$dir/$sub/zz_demo_test.go"
-    ( cd "$dir" && go test -vet=off -count=1 -timeout 300s -run 'Demo|demo|C[0-9][0-9]' ./$sub ) >"$D/demo.log" 2>&1; rc=$?
+    rf=""; grep -q -- '-race' "$SRC/meta.json" 2>/dev/null && rf="-race"   # the demonstration says it needs the race detector
+    ( cd "$dir" && go test $rf -vet=off -count=1 -timeout 300s -run 'Demo|demo|C[0-9][0-9]' ./$sub ) >"$D/demo.log" 2>&1; rc=$?
     rm -f "$dir/$sub/zz_demo_test.go"; return $rc
   elif [ -d "$SRC/demo" ]; then
     rm -rf "$D/demo"; cp -r "$SRC/demo" "$D/demo"
